@@ -211,23 +211,23 @@ type c09Scn struct {
 	chainNo map[string]int64
 
 	// run
-	root     int64
-	rootHash []byte
-	nowMain  time.Time
-	ops      []c09Op
-	provs    []*c09Provider
-	order    []int64
-	sched    *c09Sched
-	mu       sync.Mutex
-	log      []c09LogEnt
-	evs      []c09EvEnt
-	notes    []string
-	cs       *vg.Cases // for counters raised while a call is observed
-	trustedBefore []int64 // heights in the store when the current call began
-	forceChurn    map[int64]int // height -> 1: a power changes there, 2: a validator is replaced there
+	root          int64
+	rootHash      []byte
+	nowMain       time.Time
+	ops           []c09Op
+	provs         []*c09Provider
+	order         []int64
+	sched         *c09Sched
+	mu            sync.Mutex
+	log           []c09LogEnt
+	evs           []c09EvEnt
+	notes         []string
+	cs            *vg.Cases            // for counters raised while a call is observed
+	trustedBefore []int64              // heights in the store when the current call began
+	forceChurn    map[int64]int        // height -> 1: a power changes there, 2: a validator is replaced there
 	valPlan       func(h int64) *c09VS // the validator set of every height, when the scenario fixes them
-	forkKind string    // "", "lunatic", "equivocation", "amnesia"
-	forkDT   time.Duration
+	forkKind      string               // "", "lunatic", "equivocation", "amnesia"
+	forkDT        time.Duration
 }
 
 // one reported evidence as the implementation filled it
@@ -1727,7 +1727,6 @@ func (sc *c09Scn) observe(cl *Client, err error, panicked interface{}, prim0 int
 			class, etxt, strings.Join(stxt, " "), prim, wits, strings.Join(etx, "; "), strings.Join(ltxt, " "))}
 }
 
-
 // evExtra: the remaining fields of a reported evidence exactly as the implementation filled them
 // (table index of the conflicting light block, Timestamp, TotalVotingPower, ByzantineValidators as
 // (key id, power) in order) and the verdict of a real evidence.Pool over the honest chain.
@@ -2557,7 +2556,6 @@ func c09Collusion(r *vg.Rand, what string, seq bool, num, den uint64) *c09Scn {
 	return sc
 }
 
-
 // ---------------------------------------------------------------- attack family
 // The primary serves a fork from height T on that the client can verify from its root: an
 // equivocation (genuine sets, other DataHash), an amnesia (the same, committed in round 1) or a
@@ -2636,7 +2634,6 @@ func c09Attack(r *vg.Rand, o c09AttackOpt) *c09Scn {
 	}
 	return sc
 }
-
 
 // ---------------------------------------------------------------- bisection families
 // Geometry of both: root 2, target 10; verifySkipping asks for 10, then the pivots 6, 8, 9
